@@ -229,6 +229,9 @@ def run_concrete(c, inst, values=None, rng=None):
         c.fn(K, *inst)
     except Skip:
         return "skip", None, K.used
+    except (OverflowError, FloatingPointError):
+        # float range exceeded on this concrete input: outside the real-number abstraction, not a contract violation
+        return "skip", None, K.used
     except Exception as ex:   # native exception = the real code raised where the contract expects a result
         tb = traceback.format_exc(limit=6)
         return "exception", f"{type(ex).__name__}: {ex}\n{tb}", K.used
